@@ -91,6 +91,7 @@ func TestC31(t *testing.T) {
 		}
 		seen := map[string]bool{}
 		mutated := false
+		ferrs := 0
 		eff := []int{}
 		for _, b := range blks {
 			if gmode == "replica" {
@@ -128,11 +129,11 @@ func TestC31(t *testing.T) {
 				g := prometheus.NewGaugeVec(prometheus.GaugeOpts{Name: "x"}, []string{"state"})
 				if gmode == "replica" {
 					if err := block.NewReplicaLabelRemover(NopLogger(), []string{"replica"}).Filter(context.Background(), metas, g, g); err != nil {
-						t.Fatalf("replica label remover: %v", err)
+						ferrs++ // recorded; what is left in the map is judged as it is
 					}
 				}
 				if err := f.Filter(context.Background(), metas, g, g); err != nil {
-					t.Fatalf("filter: %v", err)
+					ferrs++ // recorded; what is left in the map is judged as it is
 				}
 				if gmode == "replica" {
 					for _, b := range blks {
@@ -162,6 +163,6 @@ func TestC31(t *testing.T) {
 				}
 			}
 		}
-		return vt.Event{"outs": outs, "runs": runs, "eff": eff, "mutated": mutated}
+		return vt.Event{"outs": outs, "runs": runs, "eff": eff, "mutated": mutated, "filter_errors": ferrs}
 	})
 }
